@@ -8,9 +8,9 @@ pub open spec fn for_evs(f: &For, n: int, d: nat) -> Seq<Ev> {
        fv(Fv::Declare(item)), Ev::Emit(SymbolicByteCode::Nil), fv(Fv::Define(item, decl_state(item))),
        // every iteration: $iter.next() — false leaves forward to the end label
        Ev::Emit(SymbolicByteCode::Label(s)), fv(Fv::StrConst(name_id("next"))), fv(Fv::StrConst(name_id("current"))),
-       fv(Fv::LocalGet(slot_of(it).0 as int)), Ev::Emit(SymbolicByteCode::IterNext(str_const(name_id("next")))), Ev::Emit(SymbolicByteCode::JumpIfFalse(e)),
+       Ev::Emit(if local_of(it).1 == SymbolState::LocalCaptured { SymbolicByteCode::GetBox(local_of(it).0) } else { SymbolicByteCode::GetLocal(local_of(it).0) }), Ev::Emit(SymbolicByteCode::IterNext(str_const(name_id("next")))), Ev::Emit(SymbolicByteCode::JumpIfFalse(e)),
        // item = $iter.current(), the copy dropped
-       fv(Fv::LocalGet(slot_of(it).0 as int)), Ev::Emit(SymbolicByteCode::IterCurrent(str_const(name_id("current")))), fv(Fv::LocalSet(slot_of(item).0 as int)), Ev::Emit(SymbolicByteCode::Drop),
+       Ev::Emit(if local_of(it).1 == SymbolState::LocalCaptured { SymbolicByteCode::GetBox(local_of(it).0) } else { SymbolicByteCode::GetLocal(local_of(it).0) }), Ev::Emit(SymbolicByteCode::IterCurrent(str_const(name_id("current")))), Ev::Emit(if local_of(item).1 == SymbolState::LocalCaptured { SymbolicByteCode::SetBox(local_of(item).0) } else { SymbolicByteCode::SetLocal(local_of(item).0) }), Ev::Emit(SymbolicByteCode::Drop),
        // the body, back to the start label, the end label
        Ev::BeginScope, Ev::Body(d, d), Ev::EndScope, Ev::Emit(SymbolicByteCode::Loop(s)), Ev::Emit(SymbolicByteCode::Label(e)),
        Ev::EndScope]
